@@ -53,6 +53,8 @@ def install(reg: Registry):
             ('list-bag-refs', FA([cc, e], z3.Implies(z3.And(cp(cc), o.cls(cc) == CLS_LIST, o.bag(cc, VRef(e)) > 0),
                                                      z3.And(cp(e), h.bag(mu(cc), VRef(mu(e))) == o.bag(cc, VRef(e)))), [o.bag(cc, VRef(e))])),
             ('fresh-closed', fresh_closed(h, o.alloc)),
+            # ghost: a copy has the origin of what it copies (chains of copies collapse to the first original)
+            ('origin', FA([cc], z3.Implies(cp(cc), h.orig(mu(cc)) == o.orig(cc)), [h.orig(mu(cc))])),
         ] + dc_frame(c, cp)
 
     def dc_frame(c, cp):
@@ -144,15 +146,87 @@ def install(reg: Registry):
                                   z3.And(is_VRef(h.val(reaches(v_a(h.val(R, k))), se)),
                                          h.cls(v_a(h.val(reaches(v_a(h.val(R, k))), se))) == CLS_LIST)), [h.val(R, k), h.has(R, k)])
 
-    def post(c, R, h):
-        o = c.old
+    # ---- functional specification (C03): which step names the lookup yields, and which declaration each entry is a copy of
+    K_ = lambda x: VStr(str_const(x))
+    SAsset = z3.Function('SAsset', Str, Val)            # asset record of the specification by name (None if absent)
+    SDecl = z3.Function('SDecl', Addr, Str, Val)        # step record named s of an asset record (None if it declares no such step)
+    Inh = z3.Function('Inh', Str, Str, z3.BoolSort())   # type T has (declares or inherits) a step named s
+    Base = z3.Function('Base', Str, Str, Addr)          # the declaration whose copy is the entry for s: the nearest overriding
+                                                        # declaration on the way up, else the top-most declaration of s
+
+    def spec_assets_of(h, L):
+        return v_a(h.val(h.f('_lang_spec', L), K_('assets')))
+
+    def truthy_opt_dict(h, v):
+        return z3.And(is_VRef(v), h.size(v_a(v)) > 0)
+
+    def fold_defs(h, L):
+        """definitions over the (unchanged) specification records; wf_lang: asset names unique, step names unique per asset"""
+        nm, s = z3.Const('nm!fd', Str), z3.Const('s!fd', Str)
+        a, d = A('a!fd'), A('d!fd')
+        AL = spec_assets_of(h, L)
+        SL_ = lambda q: v_a(h.val(q, K_('attackSteps')))
+        sa = SAsset(nm)
+        rec = v_a(sa)
+        sup = h.val(rec, K_('superAsset'))
+        has_sup = z3.And(is_VStr(sup), v_s(sup) != str_const(''))
+        dec = SDecl(rec, s)
+        reaches = h.val(v_a(dec), K_('reaches'))
+        inh_sup = z3.And(has_sup, Inh(v_s(sup), s))
         return [
+            ('SAsset.member', FA([a], z3.Implies(h.cnt(AL, a) > 0, SAsset(v_s(h.val(a, K_('name')))) == VRef(a)), [h.cnt(AL, a)])),
+            ('SAsset.range', FA([nm], z3.Or(is_VNone(sa), z3.And(is_VRef(sa), h.cnt(AL, rec) > 0, v_s(h.val(rec, K_('name'))) == nm)), [SAsset(nm)])),
+            ('SDecl.member', FA([a, d], z3.Implies(z3.And(h.cnt(AL, a) > 0, h.cnt(SL_(a), d) > 0), SDecl(a, v_s(h.val(d, K_('name')))) == VRef(d)), [h.cnt(SL_(a), d)])),
+            ('SDecl.range', FA([a, s], z3.Or(is_VNone(SDecl(a, s)), z3.And(is_VRef(SDecl(a, s)), h.cnt(SL_(a), v_a(SDecl(a, s))) > 0,
+                                                                          v_s(h.val(v_a(SDecl(a, s)), K_('name'))) == s)), [SDecl(a, s)])),
+            ('steps-nodup', FA([a, d], z3.Implies(h.cnt(AL, a) > 0, h.cnt(SL_(a), d) <= 1), [h.cnt(SL_(a), d)])),
+            ('Inh.def', FA([nm, s], Inh(nm, s) == z3.And(is_VRef(sa), z3.Or(is_VRef(dec), inh_sup)), [Inh(nm, s)])),
+            ('Base.def', FA([nm, s], z3.Implies(z3.And(is_VRef(sa), Inh(nm, s)), Base(nm, s) == z3.If(
+                z3.Not(is_VRef(dec)), Base(v_s(sup), s),
+                z3.If(z3.Not(inh_sup), v_a(dec),
+                      z3.If(z3.Not(truthy_opt_dict(h, reaches)), Base(v_s(sup), s),
+                            z3.If(h.val(v_a(reaches), K_('overrides')) == VBool(True), v_a(dec), Base(v_s(sup), s)))))), [Base(nm, s)])),
+        ]
+
+    def entries(c, h, R, have, base_of):
+        """R has exactly the keys `have(s)`; the entry for s is a (copy of a copy of ...) the declaration base_of(s)"""
+        k = z3.Const('k!en', Val)
+        s = z3.Const('s!en', Str)
+        return [('keys', FA([k], h.has(R, k) == z3.And(is_VStr(k), have(v_s(k))), [h.has(R, k)])),
+                ('typed', FA([k], z3.Implies(h.has(R, k), z3.And(is_VRef(h.val(R, k)), v_a(h.val(R, k)) >= 0, v_a(h.val(R, k)) < h.alloc, v_a(h.val(R, k)) != R)), [h.val(R, k)])),
+                ('origins', FA([s], z3.Implies(have(s), h.orig(v_a(h.val(R, VStr(s)))) == base_of(s)), [h.val(R, VStr(s))]))]
+
+    def post(c, R, h, functional=True):
+        o = c.old
+        out = [
             ('result-fresh', z3.And(R >= o.alloc, R < h.alloc, h.cls(R) == CLS_DICT)),
             ('separation', fresh_closed(h, o.alloc)),
         ] + old_region_unchanged_all(o, h)
+        if functional:
+            T_ = c.asset_type
+            out += [('fold.' + nm, f) for nm, f in entries(c, h, R, lambda s: Inh(T_, s), lambda s: Base(T_, s))]
+        return out
 
     def inv(c: LCtx):
-        return post(c, c.ret().t, c.h)
+        o, h = c.old, c.h
+        R = c.ret().t
+        a = c.local('asset')
+        rec = a.t if a.kind == 'ref' else v_a(a.t)
+        sup = o.val(rec, K_('superAsset'))
+        has_sup = z3.And(is_VStr(sup), v_s(sup) != str_const(''))
+        T_ = c.asset_type
+        done_decl = lambda s: z3.And(is_VRef(SDecl(rec, s)), z3.Select(c.done, SDecl(rec, s)) > 0)
+        have = lambda s: z3.Or(z3.And(has_sup, Inh(v_s(sup), s)), done_decl(s))
+        base_of = lambda s: z3.If(done_decl(s), Base(T_, s), Base(v_s(sup), s))
+        return post(c, R, h, functional=False) + [('fold.' + nm, f) for nm, f in entries(c, h, R, have, base_of)] + [
+            ('asset-record', z3.And(SAsset(T_) == VRef(rec), c.it == v_a(o.val(rec, K_('attackSteps')))))]
+
+    def originals(h, L):
+        """the step records of the specification are originals (their own origin)"""
+        a, d = A('a!og'), A('d!og')
+        AL = spec_assets_of(h, L)
+        return FA([a, d], z3.Implies(z3.And(h.cnt(AL, a) > 0, h.cnt(v_a(h.val(a, K_('attackSteps'))), d) > 0), h.orig(d) == d),
+                  [h.cnt(v_a(h.val(a, K_('attackSteps'))), d)])
 
     def dc_hint(c):
         """what is copied belongs to the (unchanged) specification"""
@@ -178,7 +252,11 @@ def install(reg: Registry):
                                                                 z3.Select(c.old.arr['D_val'], v_a(x)) == z3.Select(h0.arr['D_val'], v_a(x)))))]
 
     reg.add(Contract(ML + ':LanguageGraph._get_attacks_for_asset_type', {'self': Obj(LG), 'asset_type': T.str},
-                     returns=STEPS_RESULT, requires=lambda c: [('wf_lang.acyclic', wf_lang(c.old, c.self)), ('wf_lang.typed', spec_typed(c.old, c.self))],
+                     returns=STEPS_RESULT,
+                     requires=lambda c: [('wf_lang.acyclic', wf_lang(c.old, c.self)), ('wf_lang.typed', spec_typed(c.old, c.self)),
+                                         ('originals', originals(c.old, c.self))] +
+                                        [('fold.' + nm, f) for nm, f in fold_defs(c.old, c.self) if not nm.endswith('.def')],
+                     defs=lambda c: [f for nm, f in fold_defs(c.old, c.self) if nm.endswith('.def')],
                      ensures=lambda c: post(c, c.res, c.h), modifies=CONTAINER_ARRAYS, allocates=True,
                      decreases=lambda c: depth(c.asset_type), loops={0: LoopSpec(inv)},
                      locals_ty={'attack_steps': STEPS_RESULT}, call_lemmas={'deepcopy': dc_hint}, props=('C03', 'C16'),
